@@ -35,6 +35,10 @@ def cells(tier):
                 continue
             sc = scen(pool(size), h + [[P]], outcomes=["ret"])
             out.append(cell(f"s{size} {hn}", sc, MON))
+    # rejected requests in a pool that was resized (over-occupied after a shrink, grown, made unbounded)
+    for old, seq in [(3, [1]), (2, [0, 3]), (1, ["inf", 1]), ("inf", [1])]:
+        sc = scen(pool(old), [[A("A", 3)], [["set_size", v] for v in seq], [P]], outcomes=["ret"])
+        out.append(cell(f"s{old} A3|resize{seq}", sc, MON))
     for size in [1, 2]:
         sc = scen(pool(size, "SimpleTaskPool"), [[S("S", 2)], [LOCK, UNLOCK], [GAC], [P]], outcomes=["ret"])
         out.append(cell(f"simple s{size} S2|lock,unlock|gac", sc, MON))
